@@ -6,6 +6,8 @@ open Irismod.GoSem Irismod.Gen.PureKeys Irismod.Props.TieKeys
 #print axioms random_layout
 #print axioms oracle_layout
 #print axioms farm_layout
+#print axioms oracle_value_layout
+#print axioms oracle_value_in_subspace
 #print axioms htlc_layout
 #print axioms service_layout
 #print axioms record_token_layout
@@ -26,9 +28,19 @@ open Irismod.GoSem Irismod.Gen.PureKeys Irismod.Props.TieKeys
 #print axioms service_request_key_injective
 #print axioms service_response_key_injective
 #print axioms oracle_reqctx_key_injective
+#print axioms fromBE_be
+#print axioms be_injective
+#print axioms subspace_separates
+#print axioms height_separates
+#print axioms random_queue_height_separated
+#print axioms farm_active_height_separated
+#print axioms htlc_expired_height_separated
+#print axioms service_expired_batch_height_separated
+#print axioms service_new_batch_height_separated
 #print axioms random_tables_disjoint
 #print axioms htlc_tables_disjoint
 #print axioms farm_tables_disjoint
 #print axioms oracle_tables_disjoint
 -- the translated constructors on concrete arguments: random queue key of height 5, id aa; farm reward-rule key
-#eval s!"nonvacuous {(RandomKeyRequestQueue 5 (ByteArray.mk #[170])).map (·.data.toList) == some [2,0,0,0,0,0,0,0,5,170] && (FarmKeyRewardRule "p" "r").map (·.data.toList) == some [2,112,0,114] && (OracleGetFeedValuePrefixKey "f").map (·.data.toList) == some [3,102,0]}"
+#eval s!"nonvacuous {(RandomKeyRequestQueue 5 (ByteArray.mk #[170])).map (·.data.toList) == some [2,0,0,0,0,0,0,0,5,170] && (FarmKeyRewardRule "p" "r").map (·.data.toList) == some [2,112,0,114] && (OracleGetFeedValuePrefixKey "f").map (·.data.toList) == some [3,102,0] && (OracleGetFeedValueKey "f" 258).map (·.data.toList) == some [3,102,0,0,0,0,0,0,0,1,2]}"
+#eval s!"nonvacuous-be {fromBE (Uint64ToBigEndian 72623859790382856) == 72623859790382856 && (Uint64ToBigEndian 258).data.toList == [0,0,0,0,0,0,1,2]}"
